@@ -489,6 +489,11 @@ def c14_key(c):
     dd = [d for d in c["desc"] if not d.startswith("types-declared")]
     if dd and all(d.startswith("embedded:") and not d.startswith("embedded:depth0") for d in dd):
         return "C14/%s/embedded-in-nested-struct" % c["dres"]["cls"]
+    lines = [l for l in (c["dres"].get("log") or "").splitlines() if l.strip() and not l.startswith("#")]
+    if c["dres"]["cls"] == "compile-error" and lines and all("too few values in struct literal" in l for l in lines) and any(d.startswith("excluded") for d in dd):
+        # known generator defect (finding 15, the C14 face of the C05 catalogue's "too few values" class): some structs are
+        # built with positional composite literals, so a field added to such a struct - even an excluded one - breaks compilation
+        return "C14/compile-error/excluded-field-in-struct-built-with-positional-literal"
     kinds = sorted(set(":".join(d.split(":")[:3]) if d.startswith("excluded") else "embedded" for d in c["desc"] if not d.startswith("types-declared")))
     return "C14/%s/%s" % (c["dres"]["cls"], "+".join(kinds))
 
